@@ -1018,17 +1018,10 @@ func g7Reserved(r *Repo, rep *Report) {
 	// the variable passed as `reserved`
 	var resVar types.Object
 	var ctorPos []token.Pos
-	idx := -1
-	sig := ntm.Fn.Type().(*types.Signature)
-	for i := 0; i < sig.Params().Len(); i++ {
-		if sig.Params().At(i).Name() == "reserved" {
-			idx = i
-		}
-	}
 	ast.Inspect(fi.Decl.Body, func(n ast.Node) bool {
-		if c, ok := n.(*ast.CallExpr); ok && callee(info, c) == ntm.Fn && idx >= 0 && idx < len(c.Args) {
-			if id, ok := c.Args[idx].(*ast.Ident); ok {
-				resVar = info.Uses[id]
+		if c, ok := n.(*ast.CallExpr); ok && callee(info, c) == ntm.Fn {
+			if o := reservedSetArg(info, fi.Decl.Body, ntm.Fn, c); o != nil {
+				resVar = o
 				ctorPos = append(ctorPos, c.Pos())
 			}
 		}
